@@ -8,6 +8,7 @@ package main
 // calls, recursion, callees with conditional defers or recover, functions outside the repository - stay calls.
 
 import (
+	"go/constant"
 	"bytes"
 	"fmt"
 	"go/token"
@@ -36,7 +37,75 @@ func (p *Prog) Inlined(f *ssa.Function, keep func(callee *ssa.Function) bool) *s
 // setNonNilHook: facts branch folding in views may use. The load of an error variable that is only assigned
 // errors.New/fmt.Errorf by its initialiser is not nil; neither is an exported error variable of a package outside the
 // repository (io.EOF, io.ErrUnexpectedEOF, context.Canceled ...: sentinel values of the standard library).
+// constFuncMap: g is a package-level map from string constants to functions that is assigned only by its initialiser
+// (a composite literal) and never updated, deleted from or handed out anywhere: a constant dispatch table.
+func (p *Prog) constFuncMap(g *ssa.Global) []ssa.ConstMapEntry {
+	mm, ok := p.ConstGlobal(g).(*ssa.MakeMap)
+	if os.Getenv("VLDEBUG") == "constmap" {
+		fmt.Fprintf(os.Stderr, "constFuncMap %s: const=%v ok=%v\n", g.Name(), p.ConstGlobal(g), ok)
+	}
+	if !ok {
+		return nil
+	}
+	var out []ssa.ConstMapEntry
+	for _, ref := range *mm.Referrers() {
+		switch x := ref.(type) {
+		case *ssa.MapUpdate:
+			k, ok := x.Key.(*ssa.Const)
+			if !ok || k.Value == nil || k.Value.Kind() != constant.String {
+				return nil
+			}
+			v := x.Value
+			for {
+				if ct, ok := v.(*ssa.ChangeType); ok {
+					v = ct.X
+					continue
+				}
+				break
+			}
+			fn, ok := v.(*ssa.Function)
+			if !ok {
+				return nil
+			}
+			out = append(out, ssa.ConstMapEntry{Key: k, Fn: fn})
+		case *ssa.Store:
+			if x.Val != ssa.Value(mm) {
+				return nil
+			}
+		case *ssa.DebugRef:
+		default:
+			return nil
+		}
+	}
+	// every use of the variable in the program is a load that feeds lookups only
+	for _, f := range p.Funcs {
+		for _, b := range f.Blocks {
+			for _, in := range b.Instrs {
+				ld, ok := in.(*ssa.UnOp)
+				if !ok || ld.X != ssa.Value(g) {
+					continue
+				}
+				for _, r := range *ld.Referrers() {
+					switch r.(type) {
+					case *ssa.Lookup, *ssa.DebugRef:
+					default:
+						if c, isC := r.(*ssa.Call); isC {
+							if bi, isB := c.Call.Value.(*ssa.Builtin); isB && bi.Name() == "len" {
+								continue
+							}
+						}
+						return nil
+					}
+				}
+			}
+		}
+	}
+	sort.Slice(out, func(i, j int) bool { return constant.StringVal(out[i].Key.Value) < constant.StringVal(out[j].Key.Value) })
+	return out
+}
+
 func (p *Prog) setNonNilHook() {
+	ssa.ConstFuncMapHook = p.constFuncMap
 	ssa.KnownNonNilHook = func(v ssa.Value) bool {
 		u, ok := v.(*ssa.UnOp)
 		if !ok || u.Op != token.MUL {
